@@ -11,6 +11,12 @@ def seq(t):
         return None
     if t[0] == "p":
         return [("atom", t)]
+    if t[0] in ("fld", "vfld"):
+        b = t
+        while b[0] in ("fld", "vfld"):
+            b = b[1]
+        if b[0] == "p":
+            return [("atom", t)]     # a container-valued field of an input atom
     if t[0] == "call" and t[1] in NEW:
         return []
     if t[0] == "array" and not t[1]:
